@@ -27,9 +27,14 @@ class V:
     rule: str | None = None  # rule prefix expected among the new failures (fire variants)
     edits: tuple = ()        # further (file, old, new) edits applied together
     patch: str | None = None # path of a unified diff applied instead of the textual edits (seeded changes under /verif/seeded)
+    transform: str | None = None   # name of a whole-package transformation (prsa/transforms.py) applied instead
 
 
 def _apply(root, v: V):
+    if v.transform:
+        from .transforms import TRANSFORMS
+        TRANSFORMS[v.transform](root)
+        return True
     if v.patch:
         import subprocess
         p = subprocess.run(["git", "apply", os.path.abspath(v.patch)], cwd=root, capture_output=True)
@@ -145,8 +150,13 @@ def refactor_variants(prop):
     return out
 
 
+def transform_variants():
+    from .transforms import TRANSFORMS
+    return [V("transform:" + name, "", "", "", expect="noalarm", transform=name) for name in TRANSFORMS]
+
+
 def run_selftest(r):
-    variants = list(getattr(r.mod, "VARIANTS", None) or []) + seeded_variants(r.rep.prop) + refactor_variants(r.rep.prop)
+    variants = list(getattr(r.mod, "VARIANTS", None) or []) + seeded_variants(r.rep.prop) + refactor_variants(r.rep.prop) + transform_variants()
     if not variants:
         r.rep.selftest = {"variants": 0, "note": "no self-test catalogue for this property"}
         return
@@ -181,7 +191,7 @@ def main(argv):
     import importlib
     prop = argv[0]
     mod = importlib.import_module(f"prsa.props.{prop}")
-    variants = [v for v in list(getattr(mod, "VARIANTS", [])) + seeded_variants(prop) + refactor_variants(prop) if len(argv) < 2 or argv[1] in v.name]
+    variants = [v for v in list(getattr(mod, "VARIANTS", [])) + seeded_variants(prop) + refactor_variants(prop) + transform_variants() if len(argv) < 2 or argv[1] in v.name]
     from .__main__ import run_property
     try:
         _, rep = run_property(prop, "quick", 0, write_evidence=False, quiet=True, selftest=False)
